@@ -31,6 +31,12 @@ def run(ctx):
         T, api, gg, rsi, pb = dom.oil_params(rng)
         sal = float(rng.uniform(0.5, 25))  # != 0 so that a salinity/temperature mix-up shows
         swi = float(rng.uniform(0.05, 0.4))
+        dead = k % 4 == 3
+        if dead:
+            # dead / nearly dead oils (the docstring's own Fluid(400, 35, 0.65, 0)): Standing's bubble point is then below
+            # atmospheric or negative; the facade must still return exactly what the correlation returns
+            rsi = float([0.0, 1.0, 5.0, 12.0][(k // 4) % 4])
+            pb = 1000.0
         fl = Fluid(T, api, gg, rsi, sal, swi)
         ps = np.sort(np.concatenate([rng.uniform(15, 2.5 * pb, 5), [pb]]))
         tpc, ppc = float(rng.uniform(-110, -40)), float(rng.uniform(600, 700))
@@ -42,6 +48,8 @@ def run(ctx):
             ("oil_viscosity", fl.oil_viscosity(ps), [oil.viscosity_beggs_robinson(T, float(p), api, gg, rsi) for p in ps]),
             ("pressure_bubblepoint", [fl.pressure_bubblepoint()], [oil.pressure_bubblepoint_Standing(T, api, gg, rsi)]),
         ]
+        if dead:
+            pairs = [pr_ for pr_ in pairs if not pr_[0].startswith("oil_")]   # the oil correlations need a positive bubble point
         tr = (T + 459.67) / (tpc + 459.67)
         if 1.05 <= tr <= 3:
             pg = ps[ps / ppc <= 30]
